@@ -14,7 +14,7 @@ try:
     subprocess.run("git init -q . && git add -A >/dev/null 2>&1 && git -c user.email=x@x -c user.name=x commit -qm base", shell=True, cwd=D)
     os.makedirs(D + "/_out")
     demo = open(src + "/demo.py").read()
-    demo = re.sub(r"^assert puan\.__file__.*$", "pass", demo, flags=re.M)
+    demo = re.sub(r"^(\s*)assert puan\.__file__.*$", r"\1pass", demo, flags=re.M)
     open(D + "/_out/demo.py", "w").write(demo)
     env = dict(os.environ, PYTHONPATH=D)
     r0 = subprocess.run(["/venv/bin/python", "-W", "ignore", D + "/_out/demo.py"], cwd=D, env=env, capture_output=True, text=True).returncode
